@@ -211,6 +211,7 @@ def run(ctx):
             ctx.violation("interp/cspline/periodic-mismatch", "periodic spline accepted y with y[0] != y[-1]", {})
         except RuntimeError:
             pass
+    ctx.replayed = len(states)
     ctx.notes.update(cases=n, table_rows=len(states))
     ctx.assumptions += [
         "exact part: integer knots and values, rational queries; expected values computed by TLC over Q and compared to 1e-13",
